@@ -268,6 +268,9 @@ def model_build(name="main", timeout=900):
         raise BuildError("coq model build failed:\n" + out[-3000:])
     newest = max(os.path.getmtime(os.path.join(COQ, d[:-2] + ".vo")) for d in deps)
     srcs = [os.path.join(ROOT, "extract", f) for f in (name + "/Extract.v", "util.ml", name + "/driver.ml", "build.sh")]
+    # every .ml of the directory is compiled into the executable (cases.ml, sexp.ml, ...)
+    srcs += [os.path.join(ROOT, "extract", name, f) for f in os.listdir(os.path.join(ROOT, "extract", name))
+             if f.endswith(".ml") and f != "driver.ml"]
     newest = max([newest] + [os.path.getmtime(s) for s in srcs])
     if not os.path.exists(exe) or os.path.getmtime(exe) < newest:
         rc, out = sh(["./build.sh", name], cwd=os.path.join(ROOT, "extract"), timeout=timeout)
